@@ -98,22 +98,35 @@ func c09Body(nstreams int, modes []sysMode) func(x *X) {
 		push := x.Choose(3)
 		m := 1 + x.Choose(2)
 		writeFirst := x.Choose(2) == 1
-		s := newSys(mode, srvOpts{bufSize: 64}, cliOpts{bufSize: 64})
+		srvPipe := x.Choose(2) == 1    // server pipelining
+		gatedUnary := x.Choose(2) == 1 // a unary call is executing while the streams are opened and used
+		s := newSys(mode, srvOpts{bufSize: 64, pipelining: srvPipe}, cliOpts{bufSize: 64})
 		s.w.pushN = push
+		flags := byte(0)
+		if gatedUnary {
+			flags = fGate
+		}
+		u := newUcall(0x11, flags, 70, formCall)
+		u.spawn(s.conn)
+		if gatedUnary {
+			vs.Quiesce()
+		}
 		var runs []*streamRun
 		for k := 0; k < nstreams; k++ {
 			r := &streamRun{id: byte(0x31 + k)}
 			runs = append(runs, r)
 			vs.GoNamed(fmt.Sprintf("stream%d", k), func() { r.run(s.conn, s.w, m, writeFirst) })
 		}
-		u := newUcall(0x11, 0, 70, formCall)
-		u.spawn(s.conn)
 		p := newUcall(0x12, 0, 0, formPing)
 		p.spawn(s.conn)
 		vs.Quiesce()
-		out := fmt.Sprintf("%s push=%d m=%d wf=%v", mode.name, push, m, writeFirst)
+		out := fmt.Sprintf("%s push=%d m=%d wf=%v pipe=%v gated=%v", mode.name, push, m, writeFirst, srvPipe, gatedUnary)
 		for _, r := range runs {
 			out += " " + r.judge(x, s.w, m, "")
+		}
+		if gatedUnary {
+			s.w.open(0x11)
+			vs.Quiesce()
 		}
 		out += c01Check(x, []*ucall{u}, "unary-next-to-streams")
 		if !u.ret || u.err != nil || !p.ret || p.err != nil {
@@ -137,9 +150,74 @@ func c09Body(nstreams int, modes []sysMode) func(x *X) {
 	}
 }
 
+// waves: the driver itself runs every sequence of L operations over {write, read, let the system
+// settle} on one stream, so that the receive queues reach every depth and are refilled while
+// partly drained.
+func c09Waves(L int, modes []sysMode) func(x *X) {
+	return func(x *X) {
+		mode := modes[x.Choose(len(modes))]
+		push := x.Choose(2) * 2
+		s := newSys(mode, srvOpts{bufSize: 64}, cliOpts{bufSize: 64})
+		s.w.pushN = push
+		st, err := s.conn.NewStream("StreamSvc.Push")
+		if err != nil {
+			x.Fail("C09/open-failed/waves", "NewStream: %v", err)
+			return
+		}
+		var want, got [][]byte
+		for i := 0; i < push; i++ {
+			want = append(want, pushMsg(i))
+		}
+		nw := 0
+		ops := ""
+		for i := 0; i < L; i++ {
+			op := x.Choose(3)
+			if op == 1 && len(got) >= len(want) {
+				op = 2 // nothing can arrive: a read would block forever
+			}
+			switch op {
+			case 0:
+				msg := streamMsg(0x31, nw)
+				nw++
+				if e := st.WriteMessage(&msg); e != nil {
+					x.Fail("C09/write-failed/waves", "WriteMessage: %v", e)
+				}
+				want = append(want, transform(msg))
+				ops += "W"
+			case 1:
+				var b []byte
+				if e := st.ReadMessage(nil, &b); e != nil {
+					x.Fail("C09/read-failed/waves", "ReadMessage: %v", e)
+				}
+				got = append(got, append([]byte(nil), b...))
+				ops += "R"
+			case 2:
+				vs.Quiesce()
+				ops += "."
+			}
+		}
+		for len(got) < len(want) {
+			var b []byte
+			if e := st.ReadMessage(nil, &b); e != nil {
+				x.Fail("C09/read-failed/waves", "ReadMessage: %v", e)
+				break
+			}
+			got = append(got, append([]byte(nil), b...))
+		}
+		if fmt.Sprintf("%x", got) != fmt.Sprintf("%x", want) {
+			x.Fail("C09/client-sequence/waves", "operations %s (push %d): the client read %x, the server wrote %x", ops, push, got, want)
+		}
+		st.Close()
+		x.Outcome("%s push=%d %s", mode.name, push, ops)
+		s.finish()
+	}
+}
+
 func init() {
 	register(&Scenario{Prop: "C09", Name: "c09/1stream-servecodec", Quick: []Bound{{1, 0}, {2, 0}}, Thorough: []Bound{{3, 0}}, Body: c09Body(1, sysModes[:1])})
 	register(&Scenario{Prop: "C09", Name: "c09/1stream-poll2", Quick: []Bound{{1, 0}}, Thorough: []Bound{{2, 0}}, Body: c09Body(1, sysModes[3:])})
 	register(&Scenario{Prop: "C09", Name: "c09/1stream-allmodes", Quick: []Bound{{1, 0}}, Thorough: []Bound{{2, 0}}, Body: c09Body(1, sysModes)})
+	register(&Scenario{Prop: "C09", Name: "c09/waves-L6", Quick: []Bound{{0, 0}, {1, 0}}, Thorough: []Bound{{2, 0}}, Body: c09Waves(6, []sysMode{sysModes[0], sysModes[3]}), BudgetQ: 30})
+	register(&Scenario{Prop: "C09", Name: "c09/waves-L8", Quick: []Bound{}, Thorough: []Bound{{0, 0}, {1, 0}}, Body: c09Waves(8, sysModes[:1]), BudgetT: 200})
 	register(&Scenario{Prop: "C09", Name: "c09/2streams", Quick: []Bound{{1, 0}}, Thorough: []Bound{{2, 0}}, Body: c09Body(2, sysModes)})
 }
